@@ -4,7 +4,7 @@ import json
 from harness.charclass import char_class, strings_of
 
 ASSUME_SESSION = [
-    "A-PQ: queue.PriorityQueue.get returns a minimal entry under the entries' __lt__ (heapq contract)",
+    "A-PQ (no longer an assumption about the queue's contract): the machine's sorted-list queue is a proved abstraction (Props/C01b.lean, C01b_sequence_refines) of EventQueue over CPython's heapq as modelled step for step in Model/Heapq.lean; what remains trusted is that CPython's heapq (the C accelerator) is Lib/heapq.py - the C01 check compares the real EventQueue's heap array with the model's after every call",
     "A-EXC: ExitMainLoop / Exception / SystemExit propagate as Python defines; scripted callbacks do not catch ExitMainLoop",
     "A-I18N: gettext falls back to identity (LANG=C)",
     "programs are scripts: per handler / screen callback and invocation number a list of public-API calls and a return value (every adaptive callback behaves in a given run like such a table)",
